@@ -234,6 +234,15 @@ class C01(Prop):
 
                 df = pd.DataFrame({"I": list(range(len(vals))), "V": pd.Series(vals, dtype="object" if ty not in ("float",) else None)})
                 kw = {} if path == "write_pandas" else {"chunk_size": rng.choice([2, 5] if len(vals) == 3 else [2, 3])}
+                # the frame's index is no part of the data: rows are written in frame order whatever their labels are (a frame
+                # that was filtered, sorted or re-indexed before being written); the driver's choice, recorded with the operation
+                op["index"] = rng.choice(("default", "shifted", "reversed", "labels"))
+                if op["index"] == "shifted":
+                    df.index = range(10, 10 + len(df))
+                elif op["index"] == "reversed":
+                    df.index = range(len(df) - 1, -1, -1)
+                elif op["index"] == "labels":
+                    df.index = [f"r{k}" for k in range(len(df))]
                 ok, _chunks, n, _ = write_pandas(conn, df, tname, **kw)
                 if not ok or n != len(vals):
                     obs["res"] = "badcount"
